@@ -116,6 +116,23 @@ def chanlife_part(ctx, own_prefixes, depth, known_key_fn=None):
             "steps_compared": sum(len(x["ops"]) for x in res), "verdict_histogram": hist}
 
 
+def multi_part(ctx, own_prefixes):
+    """Group.remote_exec + MultiChannel (send_each / receive_each / waitclose) on real popen gateways, judged by spec/MultiCases.tla"""
+    from real import multi_real
+
+    outs = [multi_real.run(3)] + ([] if ctx.quick else [multi_real.run(5), multi_real.run(2)])
+    fields = ("n", "err", "len", "members_match", "each", "pairs_ok", "single", "closed", "ids", "waitclose", "waitclose_again")
+    dflt = {"n": 0, "err": "", "len": -1, "members_match": False, "each": [], "pairs_ok": False, "single": [], "closed": False, "ids": [],
+            "waitclose": "", "waitclose_again": ""}
+    verdicts = batch.judge("MultiCases", [{k: o.get(k, dflt[k]) for k in fields} for o in outs], ctx.scratch)
+    hist = {}
+    for o, vd in zip(outs, verdicts):
+        hist[vd] = hist.get(vd, 0) + 1
+        if vd != "ok" and vd.startswith(tuple(own_prefixes)):
+            ctx.violation(f"{vd}: {json.dumps(o)[:400]}", o)
+    return {"cases": len(outs), "verdict_histogram": hist}
+
+
 def chanfile_error_part(ctx, rng):
     """C07 through makefile("r") on a real popen gateway: remote code sends text items and then raises; the file is read in pieces,
     then waitclose() and receive() are called on the channel; TLC requires exactly one RemoteError among all these calls"""
